@@ -409,14 +409,14 @@ func runCase(rep *ev.Reporter, c *Case, maxRuns int, fs *FamilyStats, judge func
 					}
 
 					if c.Histories && (len(tr.Choices) > 0 && allZero(tr.Choices) || len(tr.Choices) == 0 && !hx.OrderLive()) {
-						for _, hv := range historyVariants(c, b, prog, mk) {
+						for _, hv := range historyVariants(c, b, prog, mk, rep.Tier == "quick") {
 							atomic.AddInt64(&fs.HistoryRuns, 1)
 							for _, v := range judge(hv.c, hv.tr, hv.w) {
 								if v.Sig == "" {
 									continue
 								}
 								same := false
-								for _, hv2 := range historyVariants(c, b, prog, mk) {
+								for _, hv2 := range historyVariants(c, b, prog, mk, rep.Tier == "quick") {
 									if hv2.label != hv.label {
 										continue
 									}
